@@ -114,6 +114,18 @@ CHECKS.update({
             "DESIGN.md section 4 C11"),
 })
 
+CHECKS.update({
+    "C15": ("Hypothesis PBT with a statistical oracle: generated normalised circuits x flags x torch seeds; samples of "
+            "SamplingQuery tested against the exact joint table of the numpy reference (support test + Pearson "
+            "chi-square at p < 1e-9)",
+            "Exploration, statistical: 20000 samples per generated circuit; every sample must be in-domain and have "
+            "positive reference probability, and the joint counts must pass a chi-square test against the exact "
+            "probabilities; structural zeros, mixing / dense n-ary sums, Kronecker and CP-T fused layers are "
+            "generated; <= 4 variables, <= 81 joint states. Distribution shifts below ~2% total variation are invisible.",
+            "Trusted: vlib/ref.py for the exact probabilities, scipy.stats.chi2; false-alarm probability 1e-9 per case.",
+            "DESIGN.md section 4 C15"),
+})
+
 NOT_APPLICABLE = {}
 
 
